@@ -507,6 +507,8 @@ def real_resp(item):
                             show_deflate(ws.state.compression) if 'permessage-deflate' in exts else '-')
     except errors.HandshakeError as e:
         out = 'err:' + enc(str(e))
+    except Exception as e:  # noqa -- on_response must refuse a reply with HandshakeError, nothing else (anything else escapes feed() as a crash of the connection)
+        out = 'exc:' + type(e).__name__
     return 'ver=%s code=%s status=%s hdrs=%s res=%s' % (enc(resp.http_ver), resp.status_code, enc(resp.status), hdrs, out)
 
 
@@ -1021,6 +1023,9 @@ def explore(res, tier, seed, model_ok=True):
             raise AssertionError('generator and oracle disagree: %s vs %s on %r' % (m['intended'], want, block))
         res.count('verdict:' + want)
         inp = dict(kind='resp', key=key.hex(), block=block.hex())
+        if ' res=exc:' in real:
+            res.failures.append(dict(cls='handshake-exception', what='on_response raised %s instead of granting Ready or raising HandshakeError (no Rejected event can be produced)' % real.rsplit(' res=exc:', 1)[1],
+                                     input=inp, observed=real[-300:], expected=want))
         if want == 'ready' and not got_ready:
             res.failures.append(dict(cls='rejected-good-reply', what='on_response refused a correct upgrade reply', input=inp, observed=real[-300:], expected='ready'))
         if want == 'rejected' and got_ready:
